@@ -20,7 +20,7 @@ EXHAUSTIVE = {'quick': False, 'thorough': False}
 TRUSTED = [
     'statements in lean/ParamVerif/Props/C13.lean (Inv, InstOk, Agrees; namespace_agrees / C13_full_holds for all histories of the modelled operations, failing add_parameter calls and rejected Parameter-valued class assignments included)',
     'spec-side oracle lean/ParamVerif/Store/NamespaceSpec.lean (decidable restatement of Agrees on observations)',
-    'harness/props/c13.py adapter (reports n in X.param, identity of X.param[n] / objects("existing")[n] against inspect.getattr_static '
+    'harness/props/c13.py adapter (reports n in X.param, identity of X.param[n], X.param.<n> / objects("existing")[n] against inspect.getattr_static '
     'and the per-instance copy, .default, getattr, values(), serialize_parameters(), list(X.param); Parameter identity = creation index)',
     'correspondence is differential testing: model = code only on the histories executed',
     'CPython attribute lookup along the MRO (the MRO of every class is computed by Python and sent with the case), dict order, copy.copy',
@@ -54,7 +54,7 @@ COVERAGE_TARGETS = [
     'obs:stale-window', 'kind:String', 'kind:Integer', 'kind:Nosy', 'value:None-on-instance', 'value:None-class-default',
 ]
 
-NAMES = ['x', 'y', 'z']
+NAMES = ['x', '_y', 'z']
 SHAPES = {
     'chain3': [[], [0], [1]],
     'chain4': [[], [0], [1], [2]],
@@ -151,7 +151,8 @@ def run_impl(case):
                 p = pr[n] if listed else None
                 st = static(cls, n)
                 rows.append([listed, pid(p), pid(st), dec(p.default) if p is not None else None,
-                             dec(getattr(cls, n)) if st is not None else None, dec(vals.get(n, ABSENT)), dec(ser.get(n, ABSENT))])
+                             dec(getattr(cls, n)) if st is not None else None, dec(vals.get(n, ABSENT)), dec(ser.get(n, ABSENT)),
+                             pid(getattr(pr, n, None))])      # attribute-style access `C.param.<n>`
             return {'c': c, 'order': order, 'rows': rows}
 
         def obs_inst(i):
@@ -256,8 +257,8 @@ def _finish(shape, decls, ops, policy, rng=None, kind='String'):
 
 
 def _directed():
-    D3 = [[['x', 1, 5], ['y', 2, None]], [], []]
-    D3o = [[['x', 1, 5], ['y', 2, None]], [], [['y', 0, None]]]
+    D3 = [[['x', 1, 5], ['_y', 2, None]], [], []]
+    D3o = [[['x', 1, 5], ['_y', 2, None]], [], [['_y', 0, None]]]
     R = lambda c: {'op': 'read', 'c': c}
     out = []
     # the two scenarios of the design round
@@ -278,7 +279,7 @@ def _directed():
         {'op': 'clsSet', 'c': 1, 'n': 'z', 'v': 2}, {'op': 'addParam', 'c': 1, 'n': 'z', 'd': 3, 'hi': 6},
         {'op': 'addParam', 'c': 1, 'n': 'z', 'd': 9, 'hi': 6}, {'op': 'addParam', 'c': 2, 'n': 'z', 'd': 5, 'hi': None},
         {'op': 'addParam', 'c': 2, 'n': 'z', 'd': 8, 'hi': None}, {'op': 'addParam', 'c': 0, 'n': 'x', 'd': 2, 'hi': None},
-        {'op': 'newInst', 'c': 2, 'kw': []}, {'op': 'newInst', 'c': 1, 'kw': [['x', 1], ['y', 5]]},
+        {'op': 'newInst', 'c': 2, 'kw': []}, {'op': 'newInst', 'c': 1, 'kw': [['x', 1], ['_y', 5]]},
         {'op': 'newInst', 'c': 1, 'kw': [['q', 1]]}, {'op': 'newInst', 'c': 2, 'kw': [['z', 9]]},
         {'op': 'instSet', 'i': 0, 'n': 'z', 'v': 4}, {'op': 'instSet', 'i': 0, 'n': 'z', 'v': 9},
         {'op': 'instSet', 'i': 0, 'n': 'z', 'v': 1}, {'op': 'instSet', 'i': 0, 'n': 'q', 'v': 1},
@@ -286,8 +287,8 @@ def _directed():
         {'op': 'addParam', 'c': 0, 'n': 'x', 'd': 6, 'hi': None}, {'op': 'instSet', 'i': 1, 'n': 'x', 'v': 6},
         {'op': 'instSet', 'i': 5, 'n': 'x', 'v': 6}], 'all'))
     # edit_constant reads the class namespace and must not write per-instance copies into it
-    out.append(('chain3', D3, [{'op': 'newInst', 'c': 2, 'kw': []}, {'op': 'instSet', 'i': 0, 'n': 'y', 'v': 3},
-                               {'op': 'instBlock', 'i': 0}, {'op': 'clsSet', 'c': 2, 'n': 'y', 'v': 7},
+    out.append(('chain3', D3, [{'op': 'newInst', 'c': 2, 'kw': []}, {'op': 'instSet', 'i': 0, 'n': '_y', 'v': 3},
+                               {'op': 'instBlock', 'i': 0}, {'op': 'clsSet', 'c': 2, 'n': '_y', 'v': 7},
                                {'op': 'newInst', 'c': 2, 'kw': []}, {'op': 'instBlock', 'i': 1}, {'op': 'instBlock', 'i': 5}], 'all'))
     # Parameter-valued class assignment = add_parameter (3c67719, 6653662), rejected ones are rolled back
     out.append(('chain3', D3, [{'op': 'clsSetParam', 'c': 0, 'n': 'z', 'd': 3, 'hi': None}], 'end'))
@@ -301,19 +302,19 @@ def _directed():
     # per-instance copy, then the class Parameter is replaced underneath it
     for shape in SHAPES:
         n = len(SHAPES[shape])
-        decls = [[['x', 1, 5], ['y', 2, None]] if not SHAPES[shape][k] else [] for k in range(n)]
-        ops = [R(n - 1), {'op': 'newInst', 'c': n - 1, 'kw': []}, {'op': 'instParam', 'i': 0, 'n': 'y'},
-               {'op': 'clsSet', 'c': n - 2, 'n': 'y', 'v': 4}, {'op': 'addParam', 'c': 0, 'n': 'z', 'd': 1, 'hi': None},
-               {'op': 'addParam', 'c': n - 2, 'n': 'y', 'd': 3, 'hi': None}, {'op': 'instSet', 'i': 0, 'n': 'y', 'v': 3},
+        decls = [[['x', 1, 5], ['_y', 2, None]] if not SHAPES[shape][k] else [] for k in range(n)]
+        ops = [R(n - 1), {'op': 'newInst', 'c': n - 1, 'kw': []}, {'op': 'instParam', 'i': 0, 'n': '_y'},
+               {'op': 'clsSet', 'c': n - 2, 'n': '_y', 'v': 4}, {'op': 'addParam', 'c': 0, 'n': 'z', 'd': 1, 'hi': None},
+               {'op': 'addParam', 'c': n - 2, 'n': '_y', 'd': 3, 'hi': None}, {'op': 'instSet', 'i': 0, 'n': '_y', 'v': 3},
                {'op': 'clsSet', 'c': n - 1, 'n': 'z', 'v': 2}]
         out.append((shape, decls, ops, 'all'))
         out.append((shape, decls, ops, 'end'))
     # Dynamic Parameter type: values() of an instance reads the per-instance copy's default
-    out2 = [('chain3', D3, [{'op': 'newInst', 'c': 2, 'kw': []}, {'op': 'instParam', 'i': 0, 'n': 'y'},
-                            {'op': 'clsSet', 'c': 0, 'n': 'y', 'v': 4}], 'end'),
+    out2 = [('chain3', D3, [{'op': 'newInst', 'c': 2, 'kw': []}, {'op': 'instParam', 'i': 0, 'n': '_y'},
+                            {'op': 'clsSet', 'c': 0, 'n': '_y', 'v': 4}], 'end'),
             # an instance value that is None (-1) is a value, not "unset"
-            ('chain3', D3, [{'op': 'newInst', 'c': 2, 'kw': [['y', -1]]}, {'op': 'instSet', 'i': 0, 'n': 'x', 'v': -1},
-                            {'op': 'clsSet', 'c': 0, 'n': 'y', 'v': 4}, {'op': 'clsSet', 'c': 1, 'n': 'x', 'v': -1},
+            ('chain3', D3, [{'op': 'newInst', 'c': 2, 'kw': [['_y', -1]]}, {'op': 'instSet', 'i': 0, 'n': 'x', 'v': -1},
+                            {'op': 'clsSet', 'c': 0, 'n': '_y', 'v': 4}, {'op': 'clsSet', 'c': 1, 'n': 'x', 'v': -1},
                             {'op': 'newInst', 'c': 2, 'kw': []}, {'op': 'instSet', 'i': 1, 'n': 'x', 'v': 0}], 'all')]
     # validation that reads the namespace while a (rejected) class-level assignment is in progress
     nosy = [('chain3', D3, [{'op': 'clsSet', 'c': 2, 'n': 'x', 'v': 7}, {'op': 'clsSet', 'c': 1, 'n': 'x', 'v': 8},
@@ -329,12 +330,12 @@ def _directed():
 def _alphabet(ncls):
     ops = [{'op': 'read', 'c': c} for c in range(ncls)]
     for c in range(ncls):
-        ops += [{'op': 'clsSet', 'c': c, 'n': 'x', 'v': 3}, {'op': 'clsSet', 'c': c, 'n': 'y', 'v': 7},
+        ops += [{'op': 'clsSet', 'c': c, 'n': 'x', 'v': 3}, {'op': 'clsSet', 'c': c, 'n': '_y', 'v': 7},
                 {'op': 'clsSet', 'c': c, 'n': 'x', 'v': 8},
                 {'op': 'addParam', 'c': c, 'n': 'x', 'd': 2, 'hi': None}, {'op': 'addParam', 'c': c, 'n': 'z', 'd': 4, 'hi': None},
                 {'op': 'addParam', 'c': c, 'n': 'x', 'd': 9, 'hi': None}]
     ops += [{'op': 'newInst', 'c': ncls - 1, 'kw': []}, {'op': 'newInst', 'c': 1, 'kw': [['x', 4]]},
-            {'op': 'instSet', 'i': 0, 'n': 'x', 'v': 2}, {'op': 'instSet', 'i': 0, 'n': 'y', 'v': 6},
+            {'op': 'instSet', 'i': 0, 'n': 'x', 'v': 2}, {'op': 'instSet', 'i': 0, 'n': '_y', 'v': 6},
             {'op': 'instParam', 'i': 0, 'n': 'x'}, {'op': 'instParam', 'i': 0, 'n': 'z'}, {'op': 'instBlock', 'i': 0}]
     return ops
 
@@ -391,8 +392,8 @@ def cases(rng, tier, worker, nworkers):
             yield c
     depth = 2 if tier == 'quick' else 3
     i = 0
-    for shape, decls in (('chain3', [[['x', 1, 5], ['y', 2, None]], [], []]),
-                         ('diamond', [[['x', 1, 5]], [['y', 2, None]], [], []])):
+    for shape, decls in (('chain3', [[['x', 1, 5], ['_y', 2, None]], [], []]),
+                         ('diamond', [[['x', 1, 5]], [['_y', 2, None]], [], []])):
         alpha = _alphabet(len(SHAPES[shape]))
         if depth == 3:      # the third position only takes the mutators that change what lookup finds
             alpha3 = [o for o in alpha if o['op'] in ('clsSet', 'addParam', 'instSet')]
